@@ -73,8 +73,16 @@ InShard(s) == LET p == IOEnv.SHARD IN
     ELSE IF p = "" THEN Len(s) < 2
     ELSE Len(s) >= 2 /\ s[1] = SubSeq(p, 1, 1) /\ s[2] = SubSeq(p, 2, 2)
 
+(* the strings of one shard, built from the shard's two-character prefix (TLC does not enumerate sets of more than a million
+   elements, and all strings up to length 9 over five characters are two millions) *)
+ShardStrings ==
+    LET p == IOEnv.SHARD IN
+    IF p = "-" THEN UNION {Strings(n) : n \in 0..MaxLen}
+    ELSE IF p = "" THEN UNION {Strings(n) : n \in 0..(IF MaxLen < 1 THEN MaxLen ELSE 1)}
+    ELSE {<<SubSeq(p, 1, 1), SubSeq(p, 2, 2)>> \o t : t \in UNION {Strings(n) : n \in 0..(MaxLen - 2)}}
+
 Init ==
-    /\ input \in {s \in UNION {Strings(n) : n \in 0..MaxLen} : Proper(s) /\ InShard(s)}
+    /\ input \in {s \in ShardStrings : Proper(s) /\ InShard(s)}
     /\ stack = Runs(input)
     /\ cur = 1
     /\ matches = {}
